@@ -211,6 +211,12 @@ def main(argv):
     reg = registry()
     if cmd == 'setup':
         return witness.setup()
+    if cmd == 'all':
+        rc = 0
+        for p_ in sorted(reg.PROPERTY_UNITS):
+            r_ = subprocess.run([sys.executable, os.path.abspath(__file__), p_, '--tier', tier])
+            rc = max(rc, r_.returncode)
+        return rc
     if cmd == 'list':
         for p, us in sorted(reg.PROPERTY_UNITS.items()):
             print(p, us)
@@ -255,6 +261,7 @@ def main(argv):
         seen.add(o['name']); uniq.append(o)
     mine = uniq
     violations, known_lines, notes = [], [], []
+    known_obl_names = []
     os.makedirs(os.path.join(ROOT, 'replays'), exist_ok=True)
     for o in mine:
         ks = [k for k in known if k.get('status') == 'known' and witness.match_obligation(k, o)]
@@ -263,6 +270,7 @@ def main(argv):
             ok, detail = witness.run_witness(k.get('witness'), tier)
             if ok:   # witness still fails on the real code
                 known_lines.append('KNOWN-FINDING: property=%s %s [obligation %s; witness: %s]' % (pid, k['class'], o['name'], detail))
+                known_obl_names.append(o['name'])
                 handled = True
                 break
         if handled:
@@ -282,7 +290,8 @@ def main(argv):
 
     # ---------------- evidence
     fn_list, rewrites, trusted, samples, solver_ms, scan = [], [], [], [], {}, {}
-    obligations = discharged = 0
+    obligations = discharged = known_failing = 0
+    known_names = set(k2 for k2 in known_obl_names)
     checker_cmds = []
     for ur in urs:
         if ur.g is None:
@@ -299,8 +308,11 @@ def main(argv):
         crate = os.path.basename(ur.path)[:-3]
         n_ob = sum(v for k, v in ur.res.obligations.items() if k.startswith(crate + '::'))
         n_fail = len([o for o in ur.obligs])
-        obligations += n_ob
+        n_known = len([o for o in ur.obligs if o['name'] in known_names])
+        # obligations listed as known findings are reported separately and are not part of the proof claim
+        obligations += n_ob - n_known
         discharged += max(0, n_ob - n_fail)
+        known_failing += n_known
         for k, v in ur.res.fn_times.items():
             solver_ms['%s:%s' % (ur.unit.name, k.split('::', 1)[-1])] = round(v['ms'], 1)
         for lab, inf in sorted(ur.g.labels.items()):
@@ -344,6 +356,7 @@ def main(argv):
             'seed_stability': {ur.unit.name: ur.seed_results for ur in urs if ur.seed_results},
             'bounded': [b for e in extra for b in e.get('bounded', [])],
             'known_findings_replayed': known_lines,
+            'known_failing_obligations': known_failing,
             'undecided': [list(u) for u in undecided],
             'explanation': 'obligations = number of assert nodes in the initial AIR of every function/lemma of the units serving this property '
                            '(labelled contract clauses, loop invariants, callee preconditions, and the implicit index/unwrap/overflow/termination obligations); '
